@@ -1104,6 +1104,19 @@ func runC11(t *testing.T, c Case) (res Result) {
 			if !expSel {
 				continue
 			}
+			// A claim that runs next to another request may meet a record whose guard that request holds at that
+			// instant; the engine then leaves the record for the next call instead of waiting under its index lock
+			// (documented with fix 4e17d8e). Completeness and "nothing younger preferred" are therefore only demanded
+			// of a claim that ran alone - the property itself promises disjointness, criteria, limit and index order.
+			alone := true
+			for _, p := range ops {
+				if p != o && p.call < o.ret && o.call < p.ret {
+					alone = false
+				}
+			}
+			if !alone {
+				continue
+			}
 			fs, fg := int64(-1), int64(-1)
 			lim := o.op.A[1]
 			switch o.kind {
